@@ -85,6 +85,14 @@ theorem releaseIfUsed_all (hP : Lax P) (c : C) (id : Nat) (h : EvAll P c.ev) : E
   · simp [h, hP.rel]
   · exact h
 
+/-- a send refused before its handler: one error, then possibly one release -/
+theorem refuseSend_all (hP : Lax P) (c : C) (e : Nat) (p : Pkt) (h : EvAll P c.ev) :
+    EvAll P (refuseSend c e p).ev := by
+  unfold refuseSend
+  split
+  · exact releaseIfUsed_all hP _ _ (by simp [h, hP.er])
+  · simp [h, hP.er]
+
 @[simp] theorem initConn_ev (c : C) (b : Bool) : (initConn c b).ev = c.ev := by cases c; rfl
 @[simp] theorem clearStoreRelated_ev (c : C) : (clearStoreRelated c).ev = c.ev := by cases c; rfl
 @[simp] theorem storeAdd_ev (c : C) (id p site) : (storeAdd c id p site).ev = c.ev := by
